@@ -74,6 +74,32 @@ func ioWorkload(c *Ctx, small bool) []*ioFile {
 	return out
 }
 
+// alignedFiles: pages whose uncompressed body is exactly 2^k bytes for the
+// fixed-width required columns (512..8192 rows per page: 4 KiB bufio buffers,
+// the 32 KiB deflate window, 64 KiB snappy blocks), two full pages and a rest.
+func alignedFiles(c *Ctx) []*ioFile {
+	var out []*ioFile
+	for _, sh := range c.SelShapes() {
+		if sh.Name != "p1" && sh.Name != "p4" {
+			continue
+		}
+		s := sh.Schema()
+		for _, codec := range []int{0, 1, 2} {
+			for _, page := range []int{512, 1024, 4096, 8192} {
+				if sh.Name == "p4" && page != 4096 {
+					continue
+				}
+				id := fmt.Sprintf("%s/%s/aligned-%d/0", sh.Name, CodecNames[codec], page)
+				rng := Rng(c.Seed, "iofile/"+id)
+				n := 2*page + 3
+				recs := GenRecords(s, GenUniform, n, rng, false)
+				out = append(out, &ioFile{ID: id, Shape: sh, Codec: codec, Page: page, Recs: recs, Part: []int{n}, Kind: "aligned"})
+			}
+		}
+	}
+	return out
+}
+
 func (f *ioFile) write(c *Ctx) ([]byte, bool) {
 	cs := &RTCase{ID: f.ID, Shape: f.Shape, Recs: f.Recs, Partition: f.Part, Page: f.Page, Codec: f.Codec}
 	return WriteCase(c, cs, false)
@@ -170,7 +196,7 @@ func fragPatterns(c *Ctx, fileID string) []fragPattern {
 }
 
 func runC08(c *Ctx) {
-	for _, f := range ioWorkload(c, false) {
+	for _, f := range append(ioWorkload(c, false), alignedFiles(c)...) {
 		if c.Only != "" && !strings.HasPrefix(c.Only, f.ID+"/") {
 			continue
 		}
@@ -186,6 +212,9 @@ func runC08(c *Ctx) {
 		}
 		c.Out.Count("files", 1)
 		for _, p := range fragPatterns(c, f.ID) {
+			if f.Kind == "aligned" && p.Name != "chunk1" && p.Name != "chunk7" && p.Name != "chunk4096" && p.Name != "random0" && p.Name != "every3th-call-short" {
+				continue
+			}
 			id := f.ID + "/" + p.Name
 			if !c.Take(id) {
 				continue
